@@ -261,6 +261,11 @@ func (c *channel) sendSession(ctx context.Context, ses *Session) error {
 		return fmt.Errorf("send session: cannot do in the %v state", state)
 	}
 
+	// One envelope at a time on the transport: session envelopes are also sent while other
+	// goroutines send data (finishing or failing a session with traffic in flight)
+	c.sendMu.Lock()
+	defer c.sendMu.Unlock()
+
 	err := c.transport.Send(ctx, ses)
 	if err != nil {
 		return fmt.Errorf("send session: transport error: %w", err)
